@@ -2,6 +2,7 @@ package main
 
 import (
 	"fmt"
+	"regexp"
 	"strings"
 
 	"golang.org/x/tools/go/ssa"
@@ -10,7 +11,7 @@ import (
 func init() {
 	register(&propDef{
 		ID: "C19", Level: "other", Run: withShared(runC19, share{"C09", runC09, ruleIs("counter-lockstep")}),
-		Explanation: "THIN: only the gating and bounding clauses of the property are decided, not the capacity bound itself. The request-table callback is invoked from one function only; every call chain to it from an exported method passes the Pending->Normal transition of SetStatus or the status != Pending test of the queue entry; with no table yet it is dominated by playerCount >= minInitialPlayers and by the queue holding at least that many; every iteration that opens a table is entered under waterLevel >= minInitialPlayers and pops either the water level or, for the last table, the whole queue when that is below the maximum; the players handed to the assign callback are at most the table's outstanding requirement, which is decremented by the same amount; a top-up pops at most the computed count. That the water level itself never exceeds the capacity, and that initial tables get at least the minimum, is floor/ceil arithmetic over settings and is NOT decided (a counterexample for (max 6, min 5, 13 registrants) is visible by hand, see DESIGN.md).",
+		Explanation: "THIN: only the gating and bounding clauses of the property are decided, not the capacity bound itself. The request-table callback is invoked from one function only; every call chain to it from an exported method passes the Pending->Normal transition of SetStatus or the status != Pending test of the queue entry; with no table yet it is dominated by playerCount >= minInitialPlayers and by the queue holding at least that many; every iteration that opens a table is entered under waterLevel >= minInitialPlayers and pops either the water level or, for the last table, the whole queue when that is below the maximum; the players handed to the assign callback are at most the table's outstanding requirement, which is decremented by the same amount; a top-up pops at most the computed count. That the water level itself never exceeds the capacity, and that initial tables get at least the minimum, is floor/ceil arithmetic over settings and is NOT decided (a counterexample for (max 6, min 5, 13 registrants) is visible by hand, see DESIGN.md). After a top-up Required is the unmet remainder; counters move in lock-step (shared with C09).",
 		Trusted:     commonTrusted,
 		Assumptions: []string{"status constants are resolved by name (exported API)"},
 		NotCovered:  "the capacity bound itself (water-level arithmetic); 'every initially opened table gets at least the minimum'",
@@ -72,7 +73,9 @@ func runC19(c *Ctx) {
 			if len(callsTo(ps, opener)) == 0 {
 				continue
 			}
-			noTable := hasCond(ps, func(v *Val) bool { return v.K == KAtom && v.At.Op == "eq" && !v.Neg && v.At.A.String() == "recv.tableCount" })
+			noTable := hasCond(ps, func(v *Val) bool {
+				return v.K == KAtom && v.At.Op == "eq" && !v.Neg && v.At.A.String() == "recv.tableCount"
+			})
 			if noTable && !hasCond(ps, func(v *Val) bool {
 				return ltIs(v, "-len(recv.waitingQueue) + recv.minInitialPlayers - 1")
 			}) {
@@ -116,7 +119,9 @@ func runC19(c *Ctx) {
 					reachesLoop = true
 				}
 			}
-			noTable := hasCond(ps, func(v *Val) bool { return v.K == KAtom && v.At.Op == "eq" && !v.Neg && v.At.A.String() == "recv.tableCount" })
+			noTable := hasCond(ps, func(v *Val) bool {
+				return v.K == KAtom && v.At.Op == "eq" && !v.Neg && v.At.A.String() == "recv.tableCount"
+			})
 			if reachesLoop && noTable && !hasCond(ps, func(v *Val) bool {
 				return ltIs(v, "recv.minInitialPlayers - recv.playerCount - 1")
 			}) {
@@ -216,6 +221,44 @@ func runC19(c *Ctx) {
 		c.check(n == 1, "assign-bounded-by-required", "assign-call-sites#count", p.FnPos(dp), "the assign callback is invoked from the dispatcher only", fmt.Sprintf("%d call sites of the assign callback", n))
 	}
 
+	// ---- limits-as-configured: the two limits every bound is stated over are stored from the
+	// option's own argument, unconditionally and unmodified (or as constants by the constructor). An
+	// option that adjusts its argument against the other limit depends on the order of the options
+	{
+		var bad []string
+		n := 0
+		for _, key := range []string{"regulator.regulator.maxPlayersPerTable", "regulator.regulator.minInitialPlayers"} {
+			for _, w := range ix.Writers(key) {
+				c.touch(fnKey(w))
+				s := regSumm(p, 0)
+				paths, _ := s.Function(w)
+				vals := map[string]bool{}
+				for _, ps := range paths {
+					st := ps.storesTo(key)
+					if len(st) == 0 {
+						if w.Parent() != nil {
+							vals["<not set>"] = true
+						}
+						continue
+					}
+					vals[st[len(st)-1].Val.String()] = true
+				}
+				n++
+				for v := range vals {
+					if _, isConst := vInt(0), false; isConst {
+						continue
+					}
+					okv := strings.HasPrefix(v, "free:") || strings.HasPrefix(v, "param:") || isDecimal(v)
+					if !okv || len(vals) != 1 {
+						bad = append(bad, fnKey(w)+" sets "+strings.TrimPrefix(key, "regulator.regulator.")+" to "+strings.Join(sortedSet(vals), " / ")+": not simply the configured value")
+						break
+					}
+				}
+			}
+		}
+		c.check(len(bad) == 0 && n >= 2, "limits-as-configured", "regulator limits", "-", "max per table and min initial are stored as configured", "the limits in force are not the configured ones", uniq(bad, 2)...)
+	}
+
 	// ---- topup-bounded
 	sync := p.Func(regPkg, "regulator", "SyncState")
 	var rp *ssa.Function
@@ -280,8 +323,50 @@ func runC19(c *Ctx) {
 				if !okc {
 					bad3 = append(bad3, "the top-up count is "+e.Args[1].String()+", expected floor(waterLevel) minus the table's current count")
 				}
+				// the water level is players / ceil(players / max): never above max by construction.
+				// Any other divisor (the number of open tables, say) can lift the level over the capacity
+				for t := range rest.T {
+					if !okc {
+						break
+					}
+					m := levelRe.FindStringSubmatch(stripEpochs(t))
+					if m == nil || m[1] != m[2] || !strings.Contains(m[1], "recv.playerCount") {
+						bad3 = append(bad3, "the level a table is topped up to is "+t+", expected players / ceil(players / max)")
+					}
+				}
 			}
 		}
 		c.check(len(bad3) == 0 && n > 0, "topup-bounded", fnKey(rp), p.FnPos(rp), "a top-up pops at most floor(waterLevel) - PlayerCount players, one per iteration", "a top-up is not bounded by the water level", uniq(bad3, 3)...)
 	}
+}
+
+// stripEpochs removes the "@n" epoch suffixes of call-result symbols.
+var levelRe = regexp.MustCompile(`^conv:int\(math\.Floor\(op/\(conv:float64\((.+?)\), conv:float64\(conv:int\(math\.Ceil\(op/\(conv:float64\((.+?)\), conv:float64\(recv\.maxPlayersPerTable\)\)\)\)\)\)\)\)$`)
+
+func stripEpochs(t string) string {
+	var b strings.Builder
+	for i := 0; i < len(t); i++ {
+		if t[i] == '@' {
+			j := i + 1
+			for j < len(t) && t[j] >= '0' && t[j] <= '9' {
+				j++
+			}
+			i = j - 1
+			continue
+		}
+		b.WriteByte(t[i])
+	}
+	return b.String()
+}
+
+func isDecimal(v string) bool {
+	if v == "" {
+		return false
+	}
+	for i := 0; i < len(v); i++ {
+		if (v[i] < '0' || v[i] > '9') && !(i == 0 && v[i] == '-') {
+			return false
+		}
+	}
+	return true
 }
